@@ -196,6 +196,9 @@ enum Sx {
     Arr(Vec<(bool, Sx)>),
     Map(Vec<(Option<MKey>, Sx)>),
     Comp(Box<Sx>, Option<String>, String, Box<Sx>, Option<Box<Sx>>),
+    /// a non-empty `Arr` / `Map` written with a trailing comma (`[a, b,]`, `{k: v,}`):
+    /// `SArr items true` / `SMap entries true` of the model
+    Trail(Box<Sx>),
 }
 
 fn bx(s: Sx) -> Box<Sx> {
@@ -257,7 +260,7 @@ impl Sx {
         };
         match self {
             Sx::Const(_) | Sx::Var(_) => {}
-            Sx::Attr(e, _, _) | Sx::Un(_, e) | Sx::Paren(e) => f(e),
+            Sx::Attr(e, _, _) | Sx::Un(_, e) | Sx::Paren(e) | Sx::Trail(e) => f(e),
             Sx::Item(e, i, _) => {
                 f(e);
                 f(i)
@@ -369,6 +372,9 @@ impl Sx {
             }
             Sx::Comp(..) => {
                 out.insert("comprehension");
+            }
+            Sx::Trail(_) => {
+                out.insert("trailing-comma");
             }
             Sx::Const(_) | Sx::Var(_) => {}
         }
@@ -697,6 +703,13 @@ fn raw(s: &Sx) -> Vec<Tok> {
             v
         }
         Sx::Paren(e) => paren(raw(e)),
+        Sx::Trail(e) => {
+            let mut v = raw(e);
+            let close = v.pop().expect("literal");
+            v.push(Tok::Comma);
+            v.push(close);
+            v
+        }
         Sx::Arr(items) => {
             let mut v = vec![Tok::LBracket];
             v.extend(sep_by(
@@ -804,10 +817,16 @@ fn gal_sx(s: &Sx) -> String {
         Sx::Call(n, kw) => format!("(SCall {} {})", gal_str(n), gal_kw(kw)),
         Sx::Tern(c, t, f) => format!("(STern {} {} {})", gal_sx(c), gal_sx(t), gal_sx(f)),
         Sx::Paren(e) => format!("(SParen {})", gal_sx(e)),
+        Sx::Trail(e) => {
+            // the inner literal with its `trail` flag set
+            let g = gal_sx(e);
+            let cut = g.strip_suffix(" false)").expect("Trail wraps a non-empty Arr / Map");
+            format!("{cut} true)")
+        }
         Sx::Arr(items) => {
             let parts: Vec<String> =
                 items.iter().map(|(sp, x)| format!("({}, {})", gal_bool(*sp), gal_sx(x))).collect();
-            format!("(SArr [{}])", parts.join("; "))
+            format!("(SArr [{}] false)", parts.join("; "))
         }
         Sx::Map(es) => {
             let parts: Vec<String> = es
@@ -820,7 +839,7 @@ fn gal_sx(s: &Sx) -> String {
                     format!("({}, {})", k, gal_sx(x))
                 })
                 .collect();
-            format!("(SMap [{}])", parts.join("; "))
+            format!("(SMap [{}] false)", parts.join("; "))
         }
         Sx::Comp(e, k, x, t, c) => format!(
             "(SComp {} {} {} {} {})",
@@ -1106,6 +1125,7 @@ fn full(s: &Sx) -> Sx {
         Sx::Call(n, kw) => Sx::Call(n.clone(), map_kw(kw, &mut p)),
         Sx::Tern(c, t, f) => Sx::Tern(bx(p(c)), bx(p(t)), bx(p(f))),
         Sx::Paren(e) => Sx::Paren(bx(full(e))),
+        Sx::Trail(e) => Sx::Trail(bx(full(e))),
         Sx::Arr(items) => Sx::Arr(items.iter().map(|(sp, x)| (*sp, p(x))).collect()),
         Sx::Map(es) => Sx::Map(es.iter().map(|(k, x)| (k.clone(), p(x))).collect()),
         Sx::Comp(e, k, x, t, c) => Sx::Comp(bx(p(e)), k.clone(), x.clone(), bx(p(t)), map_opt(c, &mut p)),
@@ -1167,8 +1187,19 @@ fn redundant(s: &Sx, rng: &mut Rng, chainpos: bool) -> Sx {
             Sx::Tern(bx(c), bx(t), bx(redundant(f, rng, false)))
         }
         Sx::Paren(e) => Sx::Paren(bx(redundant(e, rng, false))),
-        Sx::Arr(items) => Sx::Arr(items.iter().map(|(sp, x)| (*sp, redundant(x, rng, false))).collect()),
-        Sx::Map(es) => Sx::Map(es.iter().map(|(k, x)| (k.clone(), redundant(x, rng, false))).collect()),
+        Sx::Trail(e) => match redundant(e, rng, true) {
+            Sx::Trail(i) => Sx::Trail(i),
+            i => Sx::Trail(bx(i)),
+        },
+        // a trailing comma is a decoration too (non-empty literals only)
+        Sx::Arr(items) => {
+            let a = Sx::Arr(items.iter().map(|(sp, x)| (*sp, redundant(x, rng, false))).collect());
+            if !items.is_empty() && rng.chance(1, 3) { Sx::Trail(bx(a)) } else { a }
+        }
+        Sx::Map(es) => {
+            let m = Sx::Map(es.iter().map(|(k, x)| (k.clone(), redundant(x, rng, false))).collect());
+            if !es.is_empty() && rng.chance(1, 3) { Sx::Trail(bx(m)) } else { m }
+        }
         Sx::Comp(e, k, x, t, c) => {
             let e = redundant(e, rng, false);
             let t = redundant(t, rng, false);
@@ -1495,6 +1526,116 @@ fn exhaustive_shapes() -> Vec<(String, Sx)> {
             add(format!("7:slice-bounds:{m}:{opt}"), Sx::Slice(bx(a.clone()), pick(1, &b), pick(2, &c), pick(4, &d), opt));
         }
     }
+
+    // (8) array / map literals and list comprehensions (parse_array / parse_map /
+    // parse_list_comprehension): empty, nested, every placement of spreads among 1..3 elements,
+    // folded (literal-only) and unfolded, with and without a trailing comma
+    let trail = |s: Sx| Sx::Trail(bx(s));
+    add("8:empty-array".into(), Sx::Arr(vec![]));
+    add("8:empty-map".into(), Sx::Map(vec![]));
+    add("8:empty-in-array".into(), Sx::Arr(vec![(false, Sx::Arr(vec![])), (false, Sx::Map(vec![]))]));
+    add("8:empty-in-map".into(), Sx::Map(vec![(Some(MKey::Int(0)), Sx::Arr(vec![])), (Some(MKey::Bool(true)), Sx::Map(vec![]))]));
+    add("8:spread-empty".into(), Sx::Arr(vec![(true, Sx::Arr(vec![])), (true, Sx::Arr(vec![]))]));
+    add("8:map-spread-empty".into(), Sx::Map(vec![(None, Sx::Map(vec![])), (None, Sx::Map(vec![]))]));
+    let elems = [a.clone(), bin(Bop::Plus, b.clone(), cint(1)), c.clone()];
+    let keys = [MKey::Str("k".into()), MKey::Int(7), MKey::Bool(false)];
+    for n in 1..=3usize {
+        for mask in 0..(1u8 << n) {
+            let items: Vec<(bool, Sx)> = (0..n).map(|i| (mask & (1 << i) != 0, elems[i].clone())).collect();
+            let es: Vec<(Option<MKey>, Sx)> =
+                (0..n).map(|i| (if mask & (1 << i) != 0 { None } else { Some(keys[i].clone()) }, elems[i].clone())).collect();
+            add(format!("8:array-spreads:{n}:{mask}"), Sx::Arr(items.clone()));
+            add(format!("8T:array-spreads:{n}:{mask}"), trail(Sx::Arr(items)));
+            add(format!("8:map-spreads:{n}:{mask}"), Sx::Map(es.clone()));
+            add(format!("8T:map-spreads:{n}:{mask}"), trail(Sx::Map(es)));
+        }
+        // literal-only: folded into a constant
+        let citems: Vec<(bool, Sx)> = (0..n).map(|i| (false, cint(i as i64))).collect();
+        let ces: Vec<(Option<MKey>, Sx)> = (0..n).map(|i| (Some(keys[i].clone()), cint(i as i64))).collect();
+        add(format!("8:const-array:{n}"), Sx::Arr(citems.clone()));
+        add(format!("8T:const-array:{n}"), trail(Sx::Arr(citems.clone())));
+        add(format!("8:const-map:{n}"), Sx::Map(ces.clone()));
+        add(format!("8T:const-map:{n}"), trail(Sx::Map(ces.clone())));
+        // a folded literal inside an unfolded one and the other way round, trailing commas at both levels
+        add(format!("8:const-in-array:{n}"), Sx::Arr(vec![(false, a.clone()), (false, trail(Sx::Arr(citems.clone()))), (true, Sx::Arr(citems.clone()))]));
+        add(format!("8T:const-in-map:{n}"), trail(Sx::Map(vec![(Some(MKey::Str("m".into())), trail(Sx::Map(ces.clone()))), (None, Sx::Map(ces)), (Some(MKey::Int(1)), a.clone())])));
+    }
+    // nesting (two array dimensions are the limit; maps do not count)
+    add("8:array-in-array".into(), Sx::Arr(vec![(false, Sx::Arr(vec![(false, a.clone()), (true, b.clone())])), (true, Sx::Arr(vec![(false, c.clone())]))]));
+    add("8T:array-in-array".into(), trail(Sx::Arr(vec![(false, trail(Sx::Arr(vec![(false, a.clone()), (true, b.clone())]))), (true, trail(Sx::Arr(vec![(false, c.clone())])))])));
+    add("8:map-in-map-in-map".into(), Sx::Map(vec![(Some(MKey::Str("x".into())), Sx::Map(vec![(None, a.clone()), (Some(MKey::Int(1)), Sx::Map(vec![(Some(MKey::Bool(true)), b.clone())]))]))]));
+    add("8:array-in-map-in-array".into(), Sx::Arr(vec![(false, Sx::Map(vec![(Some(MKey::Str("x".into())), Sx::Arr(vec![(true, a.clone())]))]))]));
+    add("8:map-in-array-in-map".into(), Sx::Map(vec![(Some(MKey::Int(1)), Sx::Arr(vec![(false, Sx::Map(vec![(None, a.clone())])), (true, b.clone())]))]));
+    // comprehensions: key x condition x kind of element / target / condition
+    let t = tern(b.clone(), a.clone(), c.clone());
+    let arr = Sx::Arr(vec![(false, a.clone()), (true, b.clone())]);
+    let carr = Sx::Arr(vec![(false, cint(1)), (false, cint(2))]);
+    let mp = Sx::Map(vec![(Some(MKey::Str("k".into())), a.clone()), (None, b.clone())]);
+    let parts: Vec<(&str, Sx)> = vec![
+        ("var", var("x")),
+        ("or", bin(Bop::Or, var("x"), b.clone())),
+        ("mul", bin(Bop::Mul, var("x"), var("x"))),
+        ("not", un(Unop::Not, var("x"))),
+        ("notin", Sx::NotIn(bx(var("x")), bx(b.clone()))),
+        ("filter", filt(var("x"), "f")),
+        ("isnot", test(var("x"), "t", true)),
+        ("tern", t.clone()),
+        ("array", arr.clone()),
+        ("constarray", carr.clone()),
+        ("map", mp.clone()),
+        ("call", Sx::Call("f".into(), vec![("k".into(), var("x"))])),
+        ("item", item(d.clone(), var("x"))),
+        ("paren", paren_sx(t.clone())),
+    ];
+    for key in [None, Some("k".to_string())] {
+        let kt = if key.is_some() { "kv" } else { "v" };
+        for (pn, part) in &parts {
+            add(format!("8:comp-elem:{kt}:{pn}"), Sx::Comp(bx(part.clone()), key.clone(), "x".into(), bx(d.clone()), None));
+            add(format!("8:comp-target:{kt}:{pn}"), Sx::Comp(bx(var("x")), key.clone(), "x".into(), bx(part.clone()), None));
+            add(format!("8:comp-cond:{kt}:{pn}"), Sx::Comp(bx(var("x")), key.clone(), "x".into(), bx(d.clone()), Some(bx(part.clone()))));
+            add(format!("8:comp-target-cond:{kt}:{pn}"), Sx::Comp(bx(var("x")), key.clone(), "x".into(), bx(part.clone()), Some(bx(part.clone()))));
+        }
+    }
+    let comp = Sx::Comp(bx(bin(Bop::Mul, var("x"), var("x"))), None, "x".into(), bx(d.clone()), None);
+    let compif = Sx::Comp(bx(var("x")), Some("k".into()), "x".into(), bx(d.clone()), Some(bx(bin(Bop::Gt, var("x"), cint(0)))));
+    add("8:comp-in-comp-elem".into(), Sx::Comp(bx(comp.clone()), None, "y".into(), bx(d.clone()), None));
+    add("8:comp-in-comp-target".into(), Sx::Comp(bx(var("x")), None, "x".into(), bx(compif.clone()), Some(bx(comp.clone()))));
+    // every literal form as an operand of every operator, under the unary operators, filters,
+    // tests, in every ternary position, as argument, index and subscript base
+    let lits: Vec<(&str, Sx)> = vec![
+        ("array", arr.clone()),
+        ("array,", trail(arr.clone())),
+        ("constarray", carr.clone()),
+        ("emptyarray", Sx::Arr(vec![])),
+        ("map", mp.clone()),
+        ("map,", trail(mp.clone())),
+        ("emptymap", Sx::Map(vec![])),
+        ("comp", comp.clone()),
+        ("compif", compif.clone()),
+    ];
+    for (ln, l) in &lits {
+        for o in &ops {
+            add(format!("8:{ln}:left-of:{}", o.name()), o.mk(l.clone(), a.clone()));
+            add(format!("8:{ln}:right-of:{}", o.name()), o.mk(a.clone(), l.clone()));
+        }
+        for u in uns {
+            add(format!("8:{ln}:under-{u:?}"), un(u, l.clone()));
+        }
+        add(format!("8:{ln}:filter"), filt(l.clone(), "f"));
+        add(format!("8:{ln}:filter-kwarg"), Sx::Filter(bx(a.clone()), "f".into(), vec![("k".into(), l.clone())]));
+        add(format!("8:{ln}:test"), test(l.clone(), "t", false));
+        add(format!("8:{ln}:isnot"), test(l.clone(), "t", true));
+        add(format!("8:{ln}:tern-cond"), tern(l.clone(), a.clone(), b.clone()));
+        add(format!("8:{ln}:tern-true"), tern(a.clone(), l.clone(), b.clone()));
+        add(format!("8:{ln}:tern-false"), tern(a.clone(), b.clone(), l.clone()));
+        add(format!("8:{ln}:kwarg"), Sx::Call("f".into(), vec![("k".into(), l.clone())]));
+        add(format!("8:{ln}:index"), item(a.clone(), l.clone()));
+        add(format!("8:{ln}:base"), item(l.clone(), cint(0)));
+        add(format!("8:{ln}:slice-base"), Sx::Slice(bx(l.clone()), Some(bx(cint(1))), None, None, false));
+        add(format!("8:{ln}:paren"), paren_sx(l.clone()));
+        add(format!("8:{ln}:in-array"), Sx::Arr(vec![(false, a.clone()), (false, l.clone())]));
+        add(format!("8:{ln}:in-map"), Sx::Map(vec![(Some(MKey::Str("k".into())), l.clone()), (None, l.clone())]));
+    }
     out
 }
 
@@ -1796,6 +1937,22 @@ fn limit_shapes() -> Vec<(String, Sx)> {
         add(format!("paren-brackets:{n}"), nest(n, a.clone(), &|e| item(paren_sx(b.clone()), paren_sx(e))));
         add(format!("brackets-through-call:{n}"), nest(n, a.clone(), &|e| item(b.clone(), Sx::Call("f".into(), vec![("k".into(), e)]))));
     }
+    // literals at the recursion limit: every element / value / comprehension part is one level down
+    for n in 37..=41 {
+        let deep = nest(n, a.clone(), &|e| paren_sx(e));
+        add(format!("array-item-parens:{n}"), Sx::Arr(vec![(false, b.clone()), (false, deep.clone())]));
+        add(format!("array-spread-parens:{n}"), Sx::Trail(bx(Sx::Arr(vec![(true, deep.clone())]))));
+        add(format!("map-value-parens:{n}"), Sx::Map(vec![(Some(MKey::Str("k".into())), deep.clone()), (None, b.clone())]));
+        add(format!("map-spread-parens:{n}"), Sx::Trail(bx(Sx::Map(vec![(None, deep.clone())]))));
+        add(format!("comp-elem-parens:{n}"), Sx::Comp(bx(deep.clone()), None, "x".into(), bx(b.clone()), None));
+        add(format!("comp-target-parens:{n}"), Sx::Comp(bx(b.clone()), None, "x".into(), bx(deep.clone()), None));
+        add(format!("comp-cond-parens:{n}"), Sx::Comp(bx(b.clone()), Some("k".into()), "x".into(), bx(c.clone()), Some(bx(deep.clone()))));
+        // a ternary target / condition is parenthesised by the printer: one more level
+        add(format!("comp-target-tern:{n}"), Sx::Comp(bx(b.clone()), None, "x".into(), bx(tern(c.clone(), deep.clone(), a.clone())), None));
+        add(format!("comp-cond-tern:{n}"), Sx::Comp(bx(b.clone()), None, "x".into(), bx(c.clone()), Some(bx(tern(c.clone(), a.clone(), deep.clone())))));
+        add(format!("array-in-map-nest:{n}"), nest(n, Sx::Arr(vec![(false, Sx::Arr(vec![(true, a.clone())]))]), &|e| Sx::Map(vec![(None, e)])));
+        add(format!("comp-in-map-nest:{n}"), nest(n, Sx::Comp(bx(a.clone()), None, "x".into(), bx(b.clone()), Some(bx(c.clone()))), &|e| Sx::Map(vec![(Some(MKey::Int(1)), e)])));
+    }
     for n in 1..=4 {
         add(format!("array-dim:{n}"), nest(n, a.clone(), &|e| Sx::Arr(vec![(false, e)])));
         add(format!("const-array-dim:{n}"), nest(n, cint(1), &|e| Sx::Arr(vec![(false, e)])));
@@ -2089,6 +2246,73 @@ const HANDWRITTEN2: &[&str] = &[
     "a b",
     "1 2",
     "null is none",
+];
+
+/// literal / comprehension syntax around the rules ported in Model/Pratt.v (array_loop, map_loop,
+/// parse_comp): trailing commas, spreads, lookahead for `for`, reserved variables, array dimension
+const HANDWRITTEN3: &[&str] = &[
+    "[a, b,]",
+    "[a, b,,]",
+    "[a b]",
+    "[...a,]",
+    "[...]",
+    "[..., a]",
+    "[a, ...]",
+    "[a for x in xs,]",
+    "[a, for x in xs]",
+    "[a for x in xs if c,]",
+    "[for x in xs]",
+    "[a for in in xs]",
+    "[a for x in]",
+    "[a for x xs]",
+    "[a for true in xs]",
+    "[a for x, y in m if y]",
+    "[a for x, loop in m]",
+    "[a for self, y in m]",
+    "[a for x in (b if c else d)]",
+    "[a if b else c for x in xs]",
+    "[a for x in xs if c or d]",
+    "[a for x in xs if (c if d else e)]",
+    "[a for x in xs if c else d]",
+    "[a for x in b or c if d]",
+    "[a for x in xs if c for y in ys]",
+    "[[a, b], [c]]",
+    "[[[a]]]",
+    "[[a], [[b]]]",
+    "[[a for x in xs] for y in ys]",
+    "[[[a] for x in xs] for y in ys]",
+    "[[a for x in [b]] for y in ys]",
+    "[a for x in [[b]]]",
+    "[a for x in [[[b]]]]",
+    "[[a] for x in [[b]] if [[c]]]",
+    "[a for x in xs][0]",
+    "[a, b][0][1]",
+    "[a, b] [0]",
+    "{\"k\": v}[\"k\"]",
+    "{\"k\": v}.k",
+    "[a].x",
+    "[a](b=1)",
+    "{...m,}",
+    "{...}",
+    "{...m n}",
+    "{\"a\": 1, , }",
+    "{\"a\": }",
+    "{\"a\": 1 \"b\": 2}",
+    "{\"a\": 1, \"a\": 2}",
+    "{\"a\": x, \"a\": 2}",
+    "{1: a, -1: b}",
+    "{none: a}",
+    "{\"a\": [1, 2,], \"b\": {\"c\": [],},}",
+    "{\"a\": [x for x in xs], ...{\"b\": 1}}",
+    "[{}, [], {\"a\": []}, [{}]]",
+    "[1, 2, 3,][0]",
+    "[...[1, 2], ...[], 3]",
+    "[]]",
+    "[",
+    "{",
+    "[a",
+    "{\"a\": 1",
+    "[a for x in xs",
 ];
 
 // ------------------------------------------------------------------ family eval (evaluation half)
@@ -2694,6 +2918,135 @@ fn emit_key_cases(sink: &mut Sink, meta: &mut Meta, tera: &Tera, rng: &mut Rng, 
 }
 
 
+// ------------------------------------------------------------------ (C) list comprehensions and spreads
+
+/// comprehension = filter + map over the target in order, loop variable scoped to the
+/// comprehension, condition before element, element not evaluated for skipped items, first error
+/// wins (Spec/ExprSem.v EComp); spreads of comprehension results
+fn emit_comp_cases(sink: &mut Sink, meta: &mut Meta, tera: &Tera, rng: &mut Rng, thorough: bool) -> usize {
+    let before = sink.count;
+    let targets: Vec<(&str, Option<Value>)> = vec![
+        ("[]", Some(varr(vec![]))),
+        ("[1,2,3]", Some(varr(vec![vi(1), vi(2), vi(3)]))),
+        ("[0,1,2,3]", Some(varr(vec![vi(0), vi(1), vi(2), vi(3)]))),
+        ("['a','','b']", Some(varr(vec![Value::from("a"), Value::from(""), Value::from("b")]))),
+        ("[none,true,false]", Some(varr(vec![Value::none(), Value::from(true), Value::from(false)]))),
+        ("[[1],[2,3],[]]", Some(varr(vec![varr(vec![vi(1)]), varr(vec![vi(2), vi(3)]), varr(vec![])]))),
+        ("[{f:1},{f:0},{}]", Some(varr(vec![vmap(vec![("f", vi(1))]), vmap(vec![("f", vi(0))]), vmap(vec![])]))),
+        ("[1,'a',none]", Some(varr(vec![vi(1), Value::from("a"), Value::none()]))),
+        ("int", Some(vi(3))),
+        ("str", Some(Value::from("ab"))),
+        ("none", Some(Value::none())),
+        ("map", Some(vmap(vec![("a", vi(1))]))),
+        ("emptymap", Some(vmap(vec![]))),
+        ("unbound", None),
+    ];
+    let x = || var("x");
+    let elems: Vec<(&str, Sx)> = vec![
+        ("x", x()),
+        ("x + 1", bin(Bop::Plus, x(), cint(1))),
+        ("x * x", bin(Bop::Mul, x(), x())),
+        ("x ~ '!'", bin(Bop::Concat, x(), sstr("!"))),
+        ("[x, y]", arr(vec![(false, x()), (false, var("y"))])),
+        ("[...x]", arr(vec![(true, x())])),
+        ("{'v': x}", Sx::Map(vec![(Some(MKey::Str("v".into())), x())])),
+        ("x if x else 'z'", tern(x(), x(), sstr("z"))),
+        ("y", var("y")),
+        ("nope", var("nope")),
+        ("x.f", attr(x(), "f", false)),
+        ("x?.f or 0", bin(Bop::Or, attr(x(), "f", true), cint(0))),
+        ("throw()", throw_call()),
+        ("1", cint(1)),
+        ("not x", un(Unop::Not, x())),
+        ("x is defined", test(x(), "defined", false)),
+    ];
+    let conds: Vec<(&str, Option<Sx>)> = vec![
+        ("-", None),
+        ("x", Some(x())),
+        ("not x", Some(un(Unop::Not, x()))),
+        ("x > 1", Some(bin(Bop::Gt, x(), cint(1)))),
+        ("x is odd", Some(test(x(), "odd", false))),
+        ("x is not defined", Some(test(x(), "defined", true))),
+        ("nope", Some(var("nope"))),
+        ("true", Some(Sx::Const(Const::Bool(true)))),
+        ("false", Some(Sx::Const(Const::Bool(false)))),
+        ("y", Some(var("y"))),
+        ("x.f", Some(attr(x(), "f", false))),
+        ("throw()", Some(throw_call())),
+        ("x in [1, 'a']", Some(bin(Bop::In, x(), arr(vec![(false, cint(1)), (false, sstr("a"))])))),
+    ];
+    let env_of = |t: &Option<Value>| {
+        // `x` is bound outside too (shadowed inside the comprehension), `y` is an outer variable
+        let mut env = vec![("x".to_string(), vi(100)), ("y".to_string(), vi(7))];
+        if let Some(v) = t {
+            env.push(("xs".to_string(), v.clone()));
+        }
+        env
+    };
+    let comp = |e: &Sx, c: &Option<Sx>| Sx::Comp(bx(e.clone()), None, "x".into(), bx(var("xs")), c.clone().map(bx));
+    let mut n = 0usize;
+    for (ti, (tn, t)) in targets.iter().enumerate() {
+        let env = env_of(t);
+        for (ei, (en, e)) in elems.iter().enumerate() {
+            for (ci, (cn, c)) in conds.iter().enumerate() {
+                // quick: a slice through each face of the product; thorough: all of it
+                let quick = (ci == 0 && ei % 2 == ti % 2)
+                    || (ei == 0 && matches!(ti, 0 | 2 | 4 | 7 | 8 | 13))
+                    || (ti == 2 && (ei + ci) % 3 == 0);
+                if !(thorough || quick) {
+                    continue;
+                }
+                let tag = format!("C:[{en} for x in xs if {cn}] @ {tn}");
+                n += 1;
+                emit_eval(sink, meta, tera, &comp(e, c), &env, n % 7 == 0, &tag, rng);
+            }
+        }
+    }
+    // scoping, laziness, nesting, spreads of results, key/value form
+    let xs = || var("xs");
+    let c1 = comp(&bin(Bop::Mul, x(), cint(2)), &Some(bin(Bop::Gt, x(), cint(1))));
+    let extra: Vec<(&str, Sx)> = vec![
+        ("[[x for x in xs], x]", arr(vec![(false, comp(&x(), &None)), (false, x())])),
+        ("[x, [x for x in xs], x]", arr(vec![(false, x()), (false, comp(&x(), &None)), (false, x())])),
+        ("[x for x in xs] | length", filt(comp(&x(), &None), "length")),
+        ("[x for x in xs if x > 1] | length", filt(c1.clone(), "length")),
+        ("[x for x in xs][0]", item(comp(&x(), &None), cint(0))),
+        ("[x for x in xs][-1]", item(comp(&x(), &None), un(Unop::Minus, cint(1)))),
+        ("[throw() for x in xs if false]", comp(&throw_call(), &Some(Sx::Const(Const::Bool(false))))),
+        ("[throw() for x in []]", Sx::Comp(bx(throw_call()), None, "x".into(), bx(arr(vec![])), None)),
+        ("[x for x in [] if throw()]", Sx::Comp(bx(x()), None, "x".into(), bx(arr(vec![])), Some(bx(throw_call())))),
+        ("[x for x in throw()]", Sx::Comp(bx(x()), None, "x".into(), bx(throw_call()), None)),
+        ("[x for x in [1, 2, y]]", Sx::Comp(bx(x()), None, "x".into(), bx(arr(vec![(false, cint(1)), (false, cint(2)), (false, var("y"))])), None)),
+        ("[x for x in [...xs, ...xs]]", Sx::Comp(bx(x()), None, "x".into(), bx(arr(vec![(true, xs()), (true, xs())])), None)),
+        ("[y for y in (xs if y else [])]", Sx::Comp(bx(var("y")), None, "y".into(), bx(tern(var("y"), xs(), arr(vec![]))), None)),
+        ("[[x * z for z in xs] for x in xs]", Sx::Comp(bx(Sx::Comp(bx(bin(Bop::Mul, x(), var("z"))), None, "z".into(), bx(xs()), None)), None, "x".into(), bx(xs()), None)),
+        ("[x for x in [z + 1 for z in xs] if x > 2]", Sx::Comp(bx(x()), None, "x".into(), bx(Sx::Comp(bx(bin(Bop::Plus, var("z"), cint(1))), None, "z".into(), bx(xs()), None)), Some(bx(bin(Bop::Gt, x(), cint(2)))))),
+        ("[x for x in xs if [z for z in xs if z > x]]", Sx::Comp(bx(x()), None, "x".into(), bx(xs()), Some(bx(Sx::Comp(bx(var("z")), None, "z".into(), bx(xs()), Some(bx(bin(Bop::Gt, var("z"), x())))))))),
+        ("[...[x for x in xs], 0, ...xs]", arr(vec![(true, comp(&x(), &None)), (false, cint(0)), (true, xs())])),
+        ("[...xs, ...[x + 1 for x in xs if x],]", Sx::Trail(bx(arr(vec![(true, xs()), (true, comp(&bin(Bop::Plus, x(), cint(1)), &Some(x())))])))),
+        ("{'k': [x for x in xs], ...{'n': xs | length}}", Sx::Map(vec![(Some(MKey::Str("k".into())), comp(&x(), &None)), (None, Sx::Map(vec![(Some(MKey::Str("n".into())), filt(xs(), "length"))]))])),
+        ("[...x] (outer x)", arr(vec![(true, x())])),
+        ("[v for k, v in xs]", Sx::Comp(bx(var("v")), Some("k".into()), "v".into(), bx(xs()), None)),
+        ("[k for k, v in xs if v]", Sx::Comp(bx(var("k")), Some("k".into()), "v".into(), bx(xs()), Some(bx(var("v"))))),
+        ("[x for x in xs] == xs", bin(Bop::Eq, comp(&x(), &None), xs())),
+        ("1 in [x for x in xs]", bin(Bop::In, cint(1), comp(&x(), &None))),
+        ("[x for x in xs] if xs else 'none'", tern(xs(), comp(&x(), &None), sstr("none"))),
+        ("[x for x in xs or [9]]", Sx::Comp(bx(x()), None, "x".into(), bx(bin(Bop::Or, xs(), arr(vec![(false, cint(9))]))), None)),
+        ("[x for x in xs if x or y]", comp(&x(), &Some(bin(Bop::Or, x(), var("y"))))),
+    ];
+    for (ti, (tn, t)) in targets.iter().enumerate() {
+        if !thorough && !matches!(ti, 0 | 2 | 7 | 8 | 13) {
+            continue;
+        }
+        let env = env_of(t);
+        for (fname, e) in &extra {
+            let tag = format!("C:{fname} @ {tn}");
+            emit_eval(sink, meta, tera, e, &env, false, &tag, rng);
+        }
+    }
+    sink.count - before
+}
+
 // ------------------------------------------------------------------ (J) and/or nested inside a non-logical wrapper
 
 /// Implementation-side oracle for the statement forms (their jump patching differs from `{{ }}`):
@@ -3060,7 +3413,7 @@ fn main() {
     }
 
     // praw: hand-written first, then mutations of printed trees
-    for t in HANDWRITTEN.iter().chain(HANDWRITTEN2.iter()) {
+    for t in HANDWRITTEN.iter().chain(HANDWRITTEN2.iter()).chain(HANDWRITTEN3.iter()) {
         run.emit_raw_text(&format!("{{{{ {t} }}}}"), "hand:written");
         run.emit_raw_text(&format!("{{{{ x + ({t}) }}}}"), "hand:nested");
     }
@@ -3107,6 +3460,9 @@ fn main() {
     // (K) maps / arrays subscripted and probed with computed keys
     let eval_key_cases = emit_key_cases(&mut eval, &mut meta, &tera, &mut rng, thorough);
     meta.extra.insert("eval_key_cases".into(), json!(eval_key_cases));
+    // (C) list comprehensions and spreads of their results
+    let eval_comp_cases = emit_comp_cases(&mut eval, &mut meta, &tera, &mut rng, thorough);
+    meta.extra.insert("eval_comp_cases".into(), json!(eval_comp_cases));
     // (J) same-operator and/or inside non-logical wrappers; (F) float x integer comparisons
     let eval_jump_cases = emit_jump_cases(&mut eval, &mut meta, &tera, &mut rng, thorough);
     meta.extra.insert("eval_jump_cases".into(), json!(eval_jump_cases));
